@@ -53,12 +53,27 @@ CHECKS = {
             "HMAC (ring) trusted; message ID and letter case of the key name are not MAC-covered by design (RFC 8945 4.3.3); "
             "bytes appended behind the TSIG record and |time-now| = fudge accept either outcome.",
             "DESIGN.md section 4 C13", "tsig"),
+    "C04": ("model_checking",
+            "TLA+ name algebra (DnsNames) whose order laws are model-checked by TLC; TLC-enumerated name pairs and operation "
+            "sequences with prescribed outcomes replayed into hickory_proto::rr::Name; recorded random names judged by a TLA+ monitor",
+            "TLC proves the specification's CanonCmp/NameEq a strict total order consistent with folded equality on 1.4M "
+            "triples around both case-fold boundaries and that the constructor/combinator machine never leaves the RFC 1035 "
+            "limits; every ordered pair of a 300+ name universe (cmp, ==, Hash, LowerName, RrKey) and every operation sequence "
+            "(lengths 0,1,61..64) is replayed through the public API; random names of up to 127 labels with arbitrary octets "
+            "are round-tripped through the wire format at many offsets with and without compression, host-style names through "
+            "the text format, and operations at the 255-octet boundary, all judged by Trace_Names.",
+            "Text identity is judged case-insensitively for the UTF-8/IDNA entry points (they lower-case by design) and "
+            "exactly for from_ascii; Name::parse is not given interior underscores (UTS 46 STD3 refuses them by design); "
+            "order laws are exhaustive on the stated universe only.",
+            "DESIGN.md section 4 C04", "names"),
 }
 
 NOT_YET = {
 }
 
 ENGINES = [
+    {"name": "names", "path": "spec/NameOps.tla", "serves_properties": ["C04"],
+     "kind_free_text": "TLA+ spec (DnsNames, NameLaws, NameOps, Gen_NamePairs, Gen_NameOps, Trace_Names) + harness/src/bin/drive_names.rs"},
     {"name": "tsig", "path": "spec/Tsig.tla", "serves_properties": ["C13"],
      "kind_free_text": "TLA+ spec (TsigOps, Tsig, MC_/Gen_/Trace_Tsig) + harness/src/bin/drive_tsig.rs"},
     {"name": "encoder", "path": "spec/Encoder.tla", "serves_properties": ["C03"],
